@@ -174,6 +174,48 @@ def run(facts, cg):
                     finding('R-UNTRUSTED', b.q, 'narrowed-arith:' + t['ak'], 'an overflow-checked %s at %s works on a value that was narrowed from %s to %d bits at %s: a declared '
                             'size that fills the narrow type panics here in builds that check for overflow' % (t['ak'], t['loc'], nar[0], oty.get('bits', 32), nar[1]))
     instances.append({'rule': 'R-UNTRUSTED(narrowed-arith)', 'functions': len(hregion), 'overflow_checked_mul_add_sites': n_arith})
+    # ------------------------------------------------------------------ R-TILING(end-of-source)
+    # "Nothing was read" is what ends the stream (the rest of the buffer becomes the last chunk).  It must be the word of the
+    # source itself: the count that is tested for zero is the Ok payload of a read on the source field as it is - not on a
+    # wrapper that can come back empty for its own reasons (`take(budget)` with the budget used up), and not a value that an
+    # error was turned into on the way (`Interrupted => Ok(0)`).  Either one flushes the buffer as a false last chunk in mid
+    # stream; what follows is cut anew from there with the old start offset: chunks overlap, the concatenation is not the input.
+    READS = ('read_buf', 'read', 'poll_read', 'poll_read_buf', 'read_exact')
+    WRAP_OK = {'deref', 'deref_mut', 'borrow', 'borrow_mut', 'as_mut', 'as_ref', 'new', 'new_unchecked', 'get_mut', 'into_inner', 'get_unchecked_mut'}
+    n_eos = 0
+    for bid in sorted(region):
+        b = facts.bodies[bid]
+        if not b.id.startswith('bitar::chunker::'):
+            continue
+        for bi in b.live:
+            sw = b.blocks[bi]['term']
+            if sw['k'] != 'switch' or sw['op']['k'] not in ('copy', 'move') or 0 not in sw['vals'] or place_ty(b, sw['op']['pl']).get('k') != 'uint':
+                continue
+            term = simplify(T.resolve_env(simplify(T.of_operand(b, sw['op']))))
+            reads = [n_ for n_ in walk(term) if n_[0] == 'call' and n_[1].split('::')[-1] in READS and ('AsyncRead' in n_[1] or 'async_read' in n_[1] or 'io::Read' in n_[1])]
+            if not reads:
+                continue
+            n_eos += 1
+            why = None
+            for r_ in reads:
+                recv = r_[2][0] if r_[2] else None
+                inner = [n_ for n_ in walk(recv) if n_[0] == 'call' and n_[1].split('::')[-1] not in WRAP_OK] if recv is not None else []
+                if inner:
+                    why = 'the read goes through %s(..), not to the source itself' % inner[0][1].split('::')[-1]
+            # a constant on the way: some path makes up the count
+            for n_ in walk(term):
+                if n_[0] == 'phi':
+                    for alt in n_[1]:
+                        if any(x[0] == 'const' and isinstance(x[1], int) for x in walk(alt)) and not any(x[0] == 'call' and x[1].split('::')[-1] in READS for x in walk(alt)):
+                            why = why or 'on one path the count is a constant (%s) instead of what the source returned' % show(alt)[:50]
+                if n_[0] == 'call' and n_[1].split('::')[-1] in ('unwrap_or', 'unwrap_or_default', 'unwrap_or_else', 'or', 'or_else', 'map_or', 'map_or_else') :
+                    why = why or 'the result of the read passes through %s(..): an error becomes a count' % n_[1].split('::')[-1]
+            instances.append({'rule': 'R-TILING(end-of-source)', 'function': b.q, 'at': sw['loc'], 'count_is_the_sources_own': why is None})
+            if why:
+                finding('R-TILING', b.q, 'false-end-of-source', 'the count tested for "nothing was read" at %s is not the source\'s own answer: %s - the buffer is flushed as a last '
+                        'chunk in mid stream and the chunks that follow overlap it' % (sw['loc'], why))
+    if n_eos < 1:
+        finding('R-TILING', '-', 'floor-eos', 'the end-of-source test of the chunker stream was not found (cannot decide)')
     # ------------------------------------------------------------------ R-TILING
     buf_calls = 0
     consumers = 0
